@@ -210,6 +210,11 @@ fn main() {
                 fs::write(p, format!("{{\"sweep_cases\": {}, \"sweep_steps\": {}, \"stress_ops\": {}, \"stuck\": {}}}\n", cases, steps, ops, stuck)).unwrap();
             }
         }
+        "slow-probe" => {
+            let mut monitor = String::new();
+            conn::slow_reader_probe(&mut monitor);
+            fs::write(arg(&args, "--monitor").expect("--monitor"), monitor).unwrap();
+        }
         "pol-gen" => {
             let seed: u64 = arg(&args, "--seed").unwrap_or("1").parse().unwrap();
             let cases: usize = arg(&args, "--cases").unwrap_or("100").parse().unwrap();
